@@ -14,15 +14,15 @@ import (
 // ---- user-declared Go types with a hand-written schema (named scalars, widths, every pointer state)
 
 type (
-	Color string // enum, string representation
-	Level int8   // enum, int representation, held as the number
-	Mode  string // enum, int representation, held as the member name
-	Small int8
-	Wide  uint64
-	Name  string
-	Blob  []byte
+	Color  string // enum, string representation
+	Level  int8   // enum, int representation, held as the number
+	Mode   string // enum, int representation, held as the member name
+	Small  int8
+	Wide   uint64
+	Name   string
+	Blob   []byte
 	Smalls []Small
-	Pair  struct { // stringjoin, usable as a map key
+	Pair   struct { // stringjoin, usable as a map key
 		A Name
 		B string
 	}
@@ -174,13 +174,13 @@ type (
 		Lists Lists
 		Any   datamodel.Node
 	}
-	Shared1 struct{ Xs []int64 }          // shares List_Int with Lists
+	Shared1 struct{ Xs []int64 } // shares List_Int with Lists
 	Shared2 struct {
 		Xs   []int64
 		Leaf Leaf // shares Leaf with Nested
 		Ls   []Leaf
 	}
-	Strs []string // a named slice
+	Strs      []string // a named slice
 	WithNamed struct {
 		S Strs
 		T []string // the unnamed slice of the same element type
